@@ -392,6 +392,11 @@ def check(rec, kind, idx, rng, tier):
         # infinite cells (saturated sensors, 1/0 friction) are values like any other: walkable unless listed as barriers
         m = rng.random((H, W)) < 0.15
         g2[m] = rng.choice([np.inf, -np.inf], size=g2.shape)[m]; rec.cls('maze.infinite_cells')
+    if g2.dtype.kind in 'iu' and rng.random() < 0.4:
+        # barrier values the integer surface cannot hold (fractional codes from a shared legend): they match no cell
+        walk = [v for v in np.unique(g2).tolist() if v not in barrier_vals]
+        if walk:
+            barrier_vals = list(barrier_vals) + [float(walk[int(rng.integers(0, len(walk)))]) + float(rng.choice([0.5, 0.25, -0.5]))]; rec.cls('maze.unrepresentable_barrier')
     ok = ~np.isin(g2.astype('float64'), barrier_vals) & ~np.isnan(g2.astype('float64'))
     geom = dict(cx=float(rng.choice([1.0, 0.1, 1 / 3, 2.5, 30.0, 0.7])), cy=float(rng.choice([1.0, 0.1, 1 / 3, 2.5, 30.0, 0.7])),
                 x0=float(rng.choice([0.0, 10.0, -7.5, 100.25])), y0=float(rng.choice([0.0, 5.0, -3.25, 1000.5])),
